@@ -462,6 +462,23 @@ class Verdict:
         return 1 if self.violations else 0
 
 
+def apalache(module, init, inv, length, tag, timeout=900):
+    """apalache-mc check; returns "ok" | "error" (a counterexample: the lemma is false) | "inconclusive" (non-gating)."""
+    import shutil
+    ad = workdir("ap-" + tag)
+    try:
+        p = subprocess.run(["apalache-mc", "check", f"--init={init}", f"--inv={inv}", f"--length={length}", f"--out-dir={ad}",
+                            os.path.join(SPEC, module + ".tla")], stdout=subprocess.PIPE, stderr=subprocess.STDOUT, text=True,
+                           timeout=timeout, cwd=ad)
+        out = p.stdout
+        res = "ok" if "EXITCODE: OK" in out else ("error" if "EXITCODE: ERROR (12)" in out or "The outcome is: Error" in out else "inconclusive")
+    except (subprocess.TimeoutExpired, FileNotFoundError) as e:
+        out, res = str(e), "inconclusive"
+    shutil.rmtree(ad, ignore_errors=True)
+    log(f"[apalache] {module} init={init} inv={inv} length={length}: {res}")
+    return res, out[-1500:]
+
+
 def write_jsonl(path, objs):
     with open(path, "w") as f:
         for o in objs:
